@@ -141,10 +141,10 @@ impl KeyDev for EventDecoder<Echo> {
         self.process_keyevent(KeyEvent::new(k, s))
     }
     fn set_ctrl(&mut self, m: HandleControl) {
-        self.set_ctrl_handling(m)
+        let _ = self.set_ctrl_handling(m);
     }
     fn change_layout(&mut self, tag: u8) {
-        EventDecoder::change_layout(self, Echo(tag))
+        let _ = EventDecoder::change_layout(self, Echo(tag));
     }
     fn mods(&self) -> Option<u16> {
         None
@@ -167,7 +167,7 @@ macro_rules! kb_keydev {
                 self.process_keyevent(KeyEvent::new(k, s))
             }
             fn set_ctrl(&mut self, m: HandleControl) {
-                self.set_ctrl_handling(m)
+                let _ = self.set_ctrl_handling(m);
             }
             const NOISE: u8 = 3;
             fn noise(&mut self, i: u8) {
@@ -178,7 +178,9 @@ macro_rules! kb_keydev {
                     1 => {
                         let _ = self.add_byte(0xE0);
                     }
-                    _ => self.clear(),
+                    _ => {
+                        let _ = self.clear();
+                    }
                 }
             }
             fn mods(&self) -> Option<u16> {
@@ -553,7 +555,7 @@ fn c14_anylayout(ctx: &mut Ctx, byref: bool) {
                             for (k, s) in &paths[m as usize] {
                                 let _ = d.process_keyevent(KeyEvent::new(*k, *s));
                             }
-                            d.change_layout($mk);
+                            let _ = d.change_layout($mk);
                         });
                         if prep.is_ok() {
                             for k in &plain_keys {
@@ -789,6 +791,11 @@ pub fn family_intermediates() -> Vec<EvAct> {
     for k in [KeyCode::A, KeyCode::S, KeyCode::Q, KeyCode::W, KeyCode::Key1, KeyCode::Key4, KeyCode::Numpad8, KeyCode::F1, KeyCode::Oem7] {
         inter.push(EvAct::Key(k, KeyState::Down));
     }
+    // the two status events Set 2 reports (key-detection overrun, self-test passed) and the release of an ordinary key:
+    // none of them is a press or release of a modifier, so none may change what the next press types
+    inter.push(EvAct::Key(KeyCode::TooManyKeys, KeyState::SingleShot));
+    inter.push(EvAct::Key(KeyCode::PowerOnTestOk, KeyState::SingleShot));
+    inter.push(EvAct::Key(KeyCode::A, KeyState::Up));
     // change_layout to every real layout (the decoder is over `Wrap`, so this installs another shipped layout)
     for id in 0..N_LAYOUTS {
         inter.push(EvAct::Layout(id as u8));
@@ -817,6 +824,26 @@ pub fn decoder_family_with<J>(ctx: &mut Ctx, label: &str, layouts: &[usize], key
 where
     J: Fn(usize, KeyCode, u16, HandleControl, &Result<DecodedKey, String>) -> Option<(String, String)> + Sync,
 {
+    decoder_family_opts(ctx, label, layouts, keys_of, FamOpts { max_inter, mod_pairs: false, modifier_keys: false }, inter, judge)
+}
+
+#[derive(Clone, Copy)]
+pub struct FamOpts {
+    /// 1 = every single intermediate action, 2 = also every ordered pair of them
+    pub max_inter: usize,
+    /// with max_inter = 1: additionally every ordered pair of *modifier key events* (18 x 18) between the two presses
+    pub mod_pairs: bool,
+    /// also press the modifier and lock keys themselves (the judge then sees them as `k`; the reference modifiers it
+    /// gets are those just before the second press)
+    pub modifier_keys: bool,
+}
+
+pub fn decoder_family_opts<J>(ctx: &mut Ctx, label: &str, layouts: &[usize], keys_of: &(dyn Fn(usize) -> Vec<KeyCode> + Sync), opts: FamOpts, inter: Vec<EvAct>, judge: J) -> u64
+where
+    J: Fn(usize, KeyCode, u16, HandleControl, &Result<DecodedKey, String>) -> Option<(String, String)> + Sync,
+{
+    let max_inter = opts.max_inter;
+    let mod_inter: Vec<EvAct> = inter.iter().filter(|a| matches!(a, EvAct::Key(k, _) if is_modifier_key(*k))).cloned().collect();
     let paths = mods_paths();
     let n_states = 1024usize;
     let jobs: Vec<(usize, usize)> = layouts.iter().flat_map(|l| (0..n_states).map(move |s| (*l, s))).collect();
@@ -842,8 +869,12 @@ where
                 EvAct::Key(k, s) => {
                     let _ = d.process_keyevent(KeyEvent::new(*k, *s));
                 }
-                EvAct::Ctrl(m) => d.set_ctrl_handling(*m),
-                EvAct::Layout(id) => d.change_layout(Wrap(*id)),
+                EvAct::Ctrl(m) => {
+                    let _ = d.set_ctrl_handling(*m);
+                }
+                EvAct::Layout(id) => {
+                    let _ = d.change_layout(Wrap(*id));
+                }
                 EvAct::Noise(_) => {}
             })
             .is_ok();
@@ -856,16 +887,17 @@ where
             ok
         };
         for k in keys_of(l) {
-            if is_modifier_key(k) {
+            if is_modifier_key(k) && !opts.modifier_keys {
                 continue;
             }
             let mut d1 = d0.clone();
             if guarded(|| d1.process_keyevent(KeyEvent::new(k, KeyState::Down))).is_err() {
                 continue;
             }
+            let m1 = rmods_step(m0, k, KeyState::Down);
             let mut check = |seq: &[&EvAct], n: &mut u64, bads: &mut Vec<FamilyBad>| {
                 let mut d = d1.clone();
-                let mut r = (m0, mode0, l);
+                let mut r = (m1, mode0, l);
                 for a in seq {
                     if !step(&mut d, &mut r, a) {
                         return;
@@ -912,6 +944,13 @@ where
                     }
                 }
             }
+            if max_inter < 2 && opts.mod_pairs {
+                for a in &mod_inter {
+                    for b in &mod_inter {
+                        check(&[a, b], &mut n, &mut bads);
+                    }
+                }
+            }
         }
         (n, bads)
     });
@@ -926,7 +965,8 @@ where
     }
     ctx.evaluations += total;
     ctx.traces_validated += total;
-    ctx.part(label, json!({"engine": "B two-press family through real EventDecoder", "layouts": layouts.len(), "start_states": n_states, "intermediate_actions": inter.len(), "max_intermediate_sequence": max_inter, "second_presses_judged": total, "violations_recorded": nb}));
+    ctx.part(label, json!({"engine": "B two-press family through real EventDecoder", "layouts": layouts.len(), "start_states": n_states, "intermediate_actions": inter.len(), "max_intermediate_sequence": max_inter,
+        "pairs_of_modifier_events_too": opts.mod_pairs && max_inter < 2, "modifier_and_lock_keys_pressed_too": opts.modifier_keys, "second_presses_judged": total, "violations_recorded": nb}));
     total
 }
 
@@ -962,7 +1002,7 @@ fn c14_two_press(ctx: &mut Ctx, tags: u8) {
             for (k, s) in &paths[m0 as usize] {
                 let _ = d0.process_keyevent(KeyEvent::new(*k, *s));
             }
-            d0.change_layout(Echo(tag0));
+            let _ = d0.change_layout(Echo(tag0));
         });
         if built.is_err() {
             return (0, bads);
@@ -973,8 +1013,12 @@ fn c14_two_press(ctx: &mut Ctx, tags: u8) {
                 EvAct::Key(k, s) => {
                     let _ = d.process_keyevent(KeyEvent::new(*k, *s));
                 }
-                EvAct::Ctrl(m) => d.set_ctrl_handling(*m),
-                EvAct::Layout(t) => d.change_layout(Echo(*t)),
+                EvAct::Ctrl(m) => {
+                    let _ = d.set_ctrl_handling(*m);
+                }
+                EvAct::Layout(t) => {
+                    let _ = d.change_layout(Echo(*t));
+                }
                 EvAct::Noise(_) => {}
             })
             .map(|_| {
